@@ -192,6 +192,141 @@ func checkC10(c *Ctx) {
 	}
 	// ---- (e) ---------------------------------------------------------------
 	ruleContReqCancelled(c, "C10.e")
+	c.rule("C10.g", "a continuation request is registered before the bytes that provoke it are flushed", 3)
+	ruleRegisterBeforeFlush(c, "C10.g")
+	c.rule("C10.h", "while a response is being read the read deadline is always finite", 3)
+	ruleReadDeadline(c, "C10.h")
+}
+
+// ruleRegisterBeforeFlush: in every client function that both registers
+// continuation requests and flushes bytes to the server (command flush, SASL
+// response), each flush happens with a registered, not yet awaited request:
+// otherwise the server's reply can be handled (and the command completed)
+// before the request exists, nothing ever cancels it and Wait blocks for ever.
+func ruleRegisterBeforeFlush(c *Ctx, rule string) {
+	p := c.P
+	reg := p.Func("imapclient", "Client", "registerContReq")
+	if reg == nil {
+		c.unresolvedRoot("(*Client).registerContReq")
+		return
+	}
+	isFlush := func(call ssa.CallInstruction) bool {
+		switch callKey(call) {
+		case "(*commandEncoder).flush", "(*Client).writeSASLResp":
+			return true
+		}
+		return false
+	}
+	n := 0
+	for _, fn := range p.SrcFuncs("imapclient") {
+		if fn.Parent() != nil {
+			continue
+		}
+		regs, flushes := 0, 0
+		allInstrs(fn, func(i ssa.Instruction) {
+			if call, ok := i.(ssa.CallInstruction); ok {
+				if staticCallee(call) == reg {
+					regs++
+				}
+				if isFlush(call) {
+					flushes++
+				}
+			}
+		})
+		if regs == 0 || flushes == 0 {
+			continue
+		}
+		gf := mustFlow(fn, facts{}, func(f facts, i ssa.Instruction) facts {
+			if call, ok := i.(ssa.CallInstruction); ok {
+				if _, isDefer := i.(*ssa.Defer); isDefer {
+					return f
+				}
+				if staticCallee(call) == reg {
+					return f.with("registered")
+				}
+				if callKey(call) == "(*ContinuationRequest).Wait" {
+					return f.without(func(s string) bool { return s == "registered" })
+				}
+			}
+			return f
+		}, nil)
+		k := 0
+		allInstrs(fn, func(i ssa.Instruction) {
+			call, ok := i.(ssa.CallInstruction)
+			if !ok || !isFlush(call) {
+				return
+			}
+			if _, isDefer := i.(*ssa.Defer); isDefer {
+				return
+			}
+			k++
+			n++
+			fs, reach := gf.at(i)
+			if !reach {
+				return
+			}
+			c.check(fs.has("registered"), rule, fmt.Sprintf("%s:flush#%d", fnKey(fn), k), i.Pos(), "a continuation request registered since the last Wait is pending when the bytes are flushed",
+				"bytes that make the server answer are flushed before the continuation request for that answer is registered: if the reader handles the reply first, the late request is never completed or cancelled and Wait blocks for ever")
+		})
+	}
+	if n == 0 {
+		c.unresolvedRoot("functions that register continuation requests and flush")
+	}
+}
+
+// ruleReadDeadline: readResponse arms a finite read deadline first thing, and
+// nothing it calls re-arms the deadline with a non-positive duration ("no
+// timeout"): a server that stalls in the middle of a response is timed out.
+func ruleReadDeadline(c *Ctx, rule string) {
+	p := c.P
+	rr := p.Func("imapclient", "Client", "readResponse")
+	srt := p.Func("imapclient", "Client", "setReadTimeout")
+	if rr == nil || srt == nil {
+		c.unresolvedRoot("(*Client).readResponse / setReadTimeout")
+		return
+	}
+	// first call of readResponse
+	first := false
+	for _, i := range rr.Blocks[0].Instrs {
+		if call, ok := i.(*ssa.Call); ok {
+			if staticCallee(call) == srt {
+				if k, ok := constInt(call.Call.Args[1]); ok && k > 0 {
+					first = true
+				}
+			}
+			break
+		}
+	}
+	c.check(first, rule, "readResponse arms a finite deadline first", rr.Pos(), "setReadTimeout(positive constant) is the first call", "readResponse no longer starts by arming a finite read deadline")
+	g := buildModGraph(p, p.VTA(), nil)
+	reach := reachableFrom(g, func(f *ssa.Function) bool { return pkgPathOf(f) == modPath+"/imapclient" }, rr)
+	var fns []*ssa.Function
+	for f := range reach {
+		fns = append(fns, f)
+	}
+	sort.Slice(fns, func(i, j int) bool { return fns[i].String() < fns[j].String() })
+	n := 0
+	for _, fn := range fns {
+		if fn.Blocks == nil {
+			continue
+		}
+		allInstrs(fn, func(i ssa.Instruction) {
+			call, ok := i.(ssa.CallInstruction)
+			if !ok || staticCallee(call) != srt {
+				return
+			}
+			if _, isDefer := i.(*ssa.Defer); isDefer && fn == rr {
+				return // the deferred reset to the idle deadline when the response is complete
+			}
+			n++
+			k, isConst := constInt(call.Common().Args[1])
+			c.check(isConst && k > 0, rule, fmt.Sprintf("%s:setReadTimeout#%d", fnKey(fn), countKey(c, rule, fnKey(fn)+":setReadTimeout#")+1), i.Pos(),
+				"re-armed with a positive constant", "the read deadline is disabled in the middle of a response: a server stalling there is never timed out and the command's Next/Close/Wait hang")
+		})
+	}
+	if n < 2 {
+		c.unresolvedRoot("setReadTimeout calls below readResponse")
+	}
 }
 
 // knownNonNilError: v (an argument of closeWithError in fn) cannot be nil:
@@ -201,10 +336,12 @@ func knownNonNilError(fn *ssa.Function, v ssa.Value) bool {
 	gf := mustFlow(fn, facts{}, nil, func(f facts, b *ssa.BasicBlock, s int) facts { return f.with(valueEdgeFacts(b, s)...) })
 	var ok func(v ssa.Value, fs facts, seen map[ssa.Value]bool) bool
 	ok = func(v ssa.Value, fs facts, seen map[ssa.Value]bool) bool {
-		if seen[v] {
-			return true
+		if _, isPhi := v.(*ssa.Phi); isPhi {
+			if seen[v] {
+				return true // a cycle through phis adds no new source
+			}
+			seen[v] = true
 		}
-		seen[v] = true
 		if fs.has("nonnil:" + v.Name()) {
 			return true
 		}
